@@ -308,6 +308,8 @@ def run(rep):
     devices(rep, wd)
     tables(rep, wd)
     tiff_tiles(rep)
+    lib_dimensions(rep)
+    lib_wire_pixels(rep)
 
 
 def tmpl_arg(full, member):
@@ -928,3 +930,135 @@ def tiff_tiles(rep):
     fns = p13.io_ast(wd)
     rep.rule("W6 tiff tiled writer: the extent copied for an edge tile is `(origin + tile < extent) ? tile : extent - origin` (exactly the remaining extent)")
     remaining_extent(rep, fns, "W6-edge-tile", "W6", lambda f: "writer::" in f["name"], 2)
+
+
+def lib_dimensions(rep):
+    """W7: for the formats whose codec is a library, the dimension plumbing on both sides"""
+    wd = C.workdir("C12lib")
+    d = C.astdump(os.path.join(C.DRIVERS, "io_driver.cpp"), os.path.join(wd, "io.json"), PATTERNS + ['^boost::gil::reader_base::'], defs=C.IO_DEFS)
+    if d.get("errors"):
+        raise C.AnalysisBroken("drivers/io_driver.cpp has compile errors")
+    fns = d["functions"]
+    rep.rule("W7 png/jpeg/tiff: the writer hands (view.width(), view.height(), channel count / depth of the pixel type) to the library in the width, "
+             "height, samples/depth positions; the reader stores the library's width in _info._width and its height in _info._height; the "
+             "back end's default rectangle is (_info._width, _info._height) and init_image recreates the image with (_dim.x, _dim.y)")
+    got = {}
+
+    def note(key, ok, detail, where):
+        if key not in got or (got[key][0] and not ok):
+            got[key] = (ok, detail, where)
+    for f in fns:
+        if f.get("body") is None:
+            continue
+        fmt = fmt_of(f)
+        short = f["name"].split("::")[-1]
+        cls = f["name"].split("::")[-2] if "::" in f["name"] else ""
+        rn = R.param_renamer(f)
+        where = "%s:%s" % (rel_path(f), f["line"])
+        decl = {}
+        for d, _ in R.find(f["body"], lambda x: x.get("k") == "Decl"):
+            for dd in d["decls"]:
+                if dd.get("name") and dd.get("init") is not None:
+                    decl[dd["name"]] = rn(R.key(dd["init"]))
+        res = lambda k: decl.get(k, k)
+        if fmt == "png" and cls == "writer_backend" and short == "write_header":
+            for c, _ in R.calls_in(f["body"], lambda n: n == "png_set_IHDR"):
+                a = [rn(R.key(x)) for x in c["args"]]
+                note("W7:png:writer:png_set_IHDR(width,height)", a[2:4] == ["$0.width()", "$0.height()"], a[2:6], where)
+                note("W7:png:writer:png_set_IHDR(depth,colour type)", a[4:6] == ["_bit_depth", "_color_type"], a[4:6], where)
+        if fmt == "jpeg" and cls == "writer" and short == "write_rows":
+            asg = {R.key(a["l"]).replace("this.", ""): rn(R.key(a["r"])) for a, _ in R.find(f["body"], lambda x: x.get("k") == "Assign")}
+            note("W7:jpeg:writer:image_width/height", asg.get("get().image_width") in ("JDIMENSION{$0.width()}", "$0.width()") and asg.get("get().image_height") in ("JDIMENSION{$0.height()}", "$0.height()"),
+                 {k: v for k, v in asg.items() if "image_" in k}, where)
+            note("W7:jpeg:writer:input_components", "get().input_components" in asg and str(asg.get("get().input_components")) in ("1", "3", "4", "value"), asg.get("get().input_components"), where)
+        if fmt == "tiff" and cls == "writer_backend" and short == "write_header":
+            props = {}
+            for c, _ in R.find(f["body"], lambda x: x.get("k") == "Call" and (x.get("callee") or {}).get("name", "").endswith("::set_property")):
+                m = re.search(r"set_property<boost::gil::(\w+)>", c["callee"].get("full", ""))
+                if m and c.get("args"):
+                    props[m.group(1)] = res(rn(R.key(c["args"][0])))
+            flat = lambda t: (t or "").replace("tiff_image_width::type{", "").replace("tiff_image_height::type{", "").replace("}", "").replace("(", "").replace(")", "")
+            note("W7:tiff:writer:image width/height", flat(props.get("tiff_image_width")).endswith("$0.width") and flat(props.get("tiff_image_height")).endswith("$0.height"),
+                 {k: props.get(k) for k in ("tiff_image_width", "tiff_image_height")}, where)
+        if cls == "reader_backend" and short == "read_header" and fmt == "jpeg":
+            asg = {R.key(a["l"]).replace("this.", ""): R.key(a["r"]).replace("this.", "") for a, _ in R.find(f["body"], lambda x: x.get("k") == "Assign")}
+            note("W7:jpeg:reader:_info._width/_height", asg.get("_info._width") == "get().image_width" and asg.get("_info._height") == "get().image_height",
+                 {k: asg.get(k) for k in ("_info._width", "_info._height")}, where)
+        if cls == "reader_backend" and short == "read_header" and fmt == "tiff":
+            props = {}
+            for c, _ in R.find(f["body"], lambda x: x.get("k") == "Call" and (x.get("callee") or {}).get("name", "").endswith("::get_property")):
+                m = re.search(r"get_property<boost::gil::(\w+)>", c["callee"].get("full", ""))
+                if m and c.get("args"):
+                    props[m.group(1)] = R.key(c["args"][0]).replace("this.", "")
+            note("W7:tiff:reader:_info._width/_height", props.get("tiff_image_width") == "_info._width" and props.get("tiff_image_height") == "_info._height",
+                 {k: props.get(k) for k in ("tiff_image_width", "tiff_image_height")}, where)
+        if cls == "reader_backend" and fmt == "png" and short == "read_header":
+            for c, _ in R.calls_in(f["body"], lambda n: n == "png_get_IHDR"):
+                a = [R.key(x).replace("this.", "") for x in c["args"]]
+                note("W7:png:reader:png_get_IHDR(&width,&height)", a[2:4] == ["(&_info._width)", "(&_info._height)"], a[2:4], where)
+        if cls == "reader_backend" and short == "reader_backend" and fmt in ("png", "jpeg", "tiff"):
+            asg = {}
+            for a, p in R.find(f["body"], lambda x: x.get("k") == "Assign"):
+                asg[R.key(a["l"]).replace("this.", "")] = R.key(a["r"]).replace("this.", "")
+            if "_settings._dim.x" in asg:
+                note("W7:%s:reader:default rectangle" % fmt, asg.get("_settings._dim.x") == "_info._width" and asg.get("_settings._dim.y") == "_info._height",
+                     {k: asg.get(k) for k in ("_settings._dim.x", "_settings._dim.y")}, where)
+        if f["name"].endswith("reader_base::init_image"):
+            for c, _ in R.find(f["body"], lambda x: x.get("k") == "Call" and (x.get("callee") or {}).get("name", "").endswith("::recreate")):
+                a = [rn(R.key(x)) for x in c["args"][:2]]
+                note("W7:reader_base::init_image:recreate(dim.x, dim.y)", a == ["$1._dim.x", "$1._dim.y"], a, where)
+    want = ["W7:png:writer:png_set_IHDR(width,height)", "W7:png:writer:png_set_IHDR(depth,colour type)", "W7:jpeg:writer:image_width/height", "W7:tiff:writer:image width/height",
+            "W7:jpeg:reader:_info._width/_height", "W7:tiff:reader:_info._width/_height", "W7:png:reader:png_get_IHDR(&width,&height)",
+            "W7:png:reader:default rectangle", "W7:jpeg:reader:default rectangle", "W7:tiff:reader:default rectangle", "W7:reader_base::init_image:recreate(dim.x, dim.y)"]
+    for k in want:
+        rep.count("obligations:W7")
+        if k not in got:
+            rep.fail_analysis("%s: anchor not found" % k)
+        elif got[k][0]:
+            rep.ok("W7-lib-dimensions", k, got[k][1])
+        else:
+            rep.violation("W7-lib-dimensions", k, got[k][2], {"found": got[k][1]})
+    for k, v in got.items():
+        if k not in want:
+            rep.count("obligations:W7")
+            (rep.ok if v[0] else (lambda r, kk, d: rep.violation(r, kk, v[2], {"found": d})))("W7-lib-dimensions", k, v[1])
+    rep.floor("obligations:W7", 11)
+
+
+def lib_wire_pixels(rep):
+    """W5b: the row buffer a library-backed writer hands to the codec has the colour-space order (identity channel mapping),
+    whatever the memory order of the view; the readers' row buffers likewise"""
+    rep.rule("W5b png/jpeg/tiff: every row buffer of pixels declared in a writer or reader row loop is pixel<channel, layout<colour space>> with the identity "
+             "channel mapping (the codec sees samples in colour-space order), for views with bgr/bgra/argb memory order")
+    wd = C.workdir("C12wire")
+    d = C.astdump(os.path.join(C.DRIVERS, "c12_lib.cpp"), os.path.join(wd, "lib.json"), ['^boost::gil::writer::', '^boost::gil::reader::'], defs=C.IO_DEFS)
+    if d.get("errors"):
+        raise C.AnalysisBroken("drivers/c12_lib.cpp has compile errors")
+    seen = {}
+    for f in d["functions"]:
+        fmt = fmt_of(f)
+        if fmt not in ("png", "jpeg", "tiff") or f.get("body") is None:
+            continue
+        side = "writer" if "::writer::" in "::" + f["name"] else "reader"
+        for dd, _ in R.find(f["body"], lambda x: x.get("k") == "Decl"):
+            for v in dd["decls"]:
+                ct = v.get("ctype") or ""
+                if not ct.startswith("std::vector<boost::gil::pixel<"):
+                    continue
+                px = wire_pixel(ct)
+                m = re.search(r"boost::gil::layout<boost::mp11::mp_list<(.*?)>, boost::mp11::mp_list<(.*?)>>>?$", px or "")
+                if not m:
+                    continue
+                idx = [int(x) for x in re.findall(r"std::integral_constant<int, (\d+)>", m.group(2))]
+                cols = re.findall(r"boost::gil::(\w+)", m.group(1))
+                key = "W5b:%s:%s::%s:%s<%s>" % (fmt, side, f["name"].split("::")[-1], v["name"], ",".join(cols))
+                ok = idx == list(range(len(idx))) and len(idx) == len(cols)
+                if key not in seen or (seen[key][0] and not ok):
+                    seen[key] = (ok, short_type(px), "%s:%s" % (rel_path(f), dd.get("line")))
+    for key, (ok, px, where) in sorted(seen.items()):
+        rep.count("obligations:W5b")
+        if ok:
+            rep.ok("W5b-lib-wire-pixel", key, px)
+        else:
+            rep.violation("W5b-lib-wire-pixel", key, where, {"row_buffer_pixel": px, "problem": "the buffer keeps the memory order of the view: the codec, which is told only the colour type, receives the channels permuted"})
+    rep.floor("obligations:W5b", 8)
